@@ -12,9 +12,9 @@ import (
 	"github.com/miekg/dns/verifshim/vsched"
 )
 
-func load(op string, addr any) { vsched.Point("atomic."+op, nil); vsched.Acquire(addr) }
+func load(op string, addr any) { vsched.PointO("atomic."+op, addr, nil); vsched.Acquire(addr) }
 func store(op string, addr any) {
-	vsched.Point("atomic."+op, nil)
+	vsched.PointO("atomic."+op, addr, nil)
 	vsched.Acquire(addr)
 	vsched.Release(addr)
 }
